@@ -17,6 +17,7 @@ import GormModel.Model.Pipeline
 import GormModel.Gen.Pipelines
 import GormModel.Gen.Misc
 import GormModel.Gen.DryRunFacts
+import GormModel.Gen.DryRunRepair
 namespace Gorm
 open Gen
 
@@ -96,12 +97,23 @@ deriving Repr, DecidableEq
 def pipelineTrace (fns : List DFn) (regs : List CbReg) (st : RunSt) (env : String → Bool) (fuel : Nat) : List DEv :=
   regs.flatMap fun r => if r.active st then runFn fns st env fuel r.handler else []
 
-/-- callbacks.go `processor.Execute`: run the compiled callbacks, then reset SQL/Vars unless DryRun -/
-def execute (fns : List DFn) (regs : List CbReg) (st : RunSt) (env : String → Bool) (fuel : Nat) : ExecOut :=
+/-- finisher_api.go `DB.Begin` / `DB.Commit` / `DB.Rollback`: does a transaction-control call made on a pool handle in
+    state `st` reach the pool?  `beginDry` says which `DB.Begin` exists (regenerated fact `Gen.beginSkipsDryRun`: every
+    `BeginTx` call site of `DB.Begin` is dominated by `!tx.DryRun`):
+      * false (tree without the repair of F25): `Begin` calls `ConnPool.BeginTx` whatever DryRun says; the handle then
+        holds a `*sql.Tx`, so the matching `Commit`/`Rollback` reach it too;
+      * true: a DryRun handle stays on its pool — `BeginTx` is skipped, and `Commit`/`Rollback` find no `TxCommitter` on
+        the statement's pool, so they call nothing (`else if !db.DryRun { AddError(ErrInvalidTransaction) }`). -/
+def txReaches (beginDry : Bool) (st : RunSt) : Bool := !(beginDry && st.dryRun)
+
+/-- callbacks.go `processor.Execute`: run the compiled callbacks, then reset SQL/Vars unless DryRun.
+    `txs` are the transaction-control calls of the callbacks (callbacks/transaction.go `db.Begin()`, `db.Commit()`,
+    `db.Rollback()`) that reach the pool (`txReaches`). -/
+def execute (beginDry : Bool) (fns : List DFn) (regs : List CbReg) (st : RunSt) (env : String → Bool) (fuel : Nat) : ExecOut :=
   let tr := pipelineTrace fns regs st env fuel
   { built := tr.filter (fun e => e.cls = .shape)
     sent := tr.filter (fun e => e.cls = .driver)
-    txs := tr.filter (fun e => e.cls = .tx)
+    txs := if txReaches beginDry st then tr.filter (fun e => e.cls = .tx) else []
     keepsSQL := executeKeepsSQLOnDryRun && st.dryRun }
 
 def RunSt.real (st : RunSt) : RunSt := { st with dryRun := false }
@@ -118,21 +130,22 @@ deriving Repr, DecidableEq
 
 /-- what the returned handle's Statement shows after a DryRun run: the build part of its OWN
     pipeline run — nothing when the batches ran on cloned statements -/
-def exposed (fns : List DFn) (f : FinSpec) (st : RunSt) (env : String → Bool) (fuel : Nat) : List DEv :=
+def exposed (beginDry : Bool) (fns : List DFn) (f : FinSpec) (st : RunSt) (env : String → Bool) (fuel : Nat) : List DEv :=
   if f.batched then [] else
     match pipelines.find? (fun p => p.1 = f.pipeline) with
-    | some p => (execute fns p.2 st env fuel).built
+    | some p => (execute beginDry fns p.2 st env fuel).built
     | none => []
 
 /-- driver-level transaction calls of a whole finisher run: those of the pipeline plus the explicit
-    `Begin` of finisher_api.go `DB.Transaction`/`DB.Begin`, whose `BeginTx` call site carries no
-    DryRun / SkipDefaultTransaction condition (`Gen.txSites`) -/
-def finisherTx (fns : List DFn) (f : FinSpec) (st : RunSt) (env : String → Bool) (fuel : Nat) : List DEv :=
+    `Begin` of finisher_api.go `DB.Transaction`/`DB.Begin`.  Its `BeginTx` call site carries no
+    SkipDefaultTransaction condition (`Gen.txSites`); whether it carries a DryRun condition is `beginDry`
+    (`txReaches`; the atom is spelled `!tx.DryRun`, which `atomVal` does not interpret) -/
+def finisherTx (beginDry : Bool) (fns : List DFn) (f : FinSpec) (st : RunSt) (env : String → Bool) (fuel : Nat) : List DEv :=
   let own := match pipelines.find? (fun p => p.1 = f.pipeline) with
-    | some p => (execute fns p.2 st env fuel).txs
+    | some p => (execute beginDry fns p.2 st env fuel).txs
     | none => []
   let beginGuards := (txSites.filter (fun s => s.fn = "DB.Begin" ∧ s.method = "BeginTx")).map (·.guards)
   let explicitEnabled := beginGuards.any (fun gs => gs.all (atomVal st env))
-  (if f.explicitTx && explicitEnabled then [⟨.tx, "DB.Begin", "BeginTx"⟩] else []) ++ own
+  (if f.explicitTx && explicitEnabled && txReaches beginDry st then [⟨.tx, "DB.Begin", "BeginTx"⟩] else []) ++ own
 
 end Gorm
